@@ -117,7 +117,15 @@ AcceptShadowW(D, m, u, out, mt) ==
 
 AcceptShadow(D, m, u, out) == \E mt \in Modes(u) : AcceptShadowW(D, m, u, out, mt)
 
-\* verdict used by the generators and the trace specification
+\* The readings are a property of the IMPLEMENTATION, not of a single outcome: an implementation must be right under
+\* ONE reading for everything it does.  AM / SM = the readings (modes 0..3) under which an outcome is accepted /
+\* accepted or in the shadow class; the drivers intersect them over all outcomes of a run.
+\* (for a URL without empty segment the readings 2, 3 coincide with 0, 1)
+Extend(base, u) == IF Modes(u) = 0..3 THEN base ELSE base \cup {mt + 2 : mt \in base}
+AM(D, m, u, out) == Extend({mt \in Modes(u) : AcceptW(D, m, u, out, mt)}, u)
+SM(D, m, u, out) == Extend({mt \in Modes(u) : AcceptShadowW(D, m, u, out, mt)}, u)
+
+\* verdict of a single outcome (some reading accepts it)
 Verdict(D, m, u, out) == IF Accept(D, m, u, out) THEN "ok"
                          ELSE IF AcceptShadow(D, m, u, out) THEN "shadow" ELSE "bad"
 ================================================================================
